@@ -1,2 +1,109 @@
-(* C07 statements; proofs in Proofs/. *)
-From BaoV Require Import Model.IO Spec.EncSpec.
+(* C07 - decode histories on a pre-sized store keep an invariant: every delivered chunk holds the blob's
+   bytes and the pairs on its path are the blob's; undelivered chunks and slots keep their initial zeros.
+   Statements only; proofs and definitions in Proofs/Hist*.v:
+     ob_sized ob size bs     kind PreIO / PostIO / PreMem / PostMem, tree (size, bs), all (blocks - 1) slots present
+     pnodes size bs          the persisted nodes of the tree's pre-order listing
+     Inv data bs D (t, ob)   the invariant for the set D of delivered chunks
+     delivered ys c          chunk c lies in a leaf item of ys
+     init_target, init_ob    the all-zero initial state
+     grp_full D ga           every chunk of group ga is in D
+     nondegenerate data      no chunk of the blob is all zeros
+     op / hist_step          an operation (query, stream, sink faults, sync or fsm decoder) and its effect on (target, outboard)
+                             = the target and outboard returned by decode_ranges_f / decode_ranges_fsm_f. *)
+From BaoV Require Import Model.IO Spec.EncSpec Spec.HashAssm.
+From BaoV Require Import Proofs.DecForest Proofs.DecRanges Proofs.ValSpec Proofs.ValPath Proofs.ValTop Proofs.ValSound
+  Proofs.HistOb Proofs.HistPath Proofs.HistEnc Proofs.HistInv Proofs.HistStep.
+
+(* the initial state satisfies the invariant with nothing delivered *)
+Theorem C07_inv_init : forall (HO : hops) (data : bytes HO) (bs : N), blen HO data <= 2 ^ 63 -> bs <= 10 ->
+  forall k, hist_kind k -> Inv HO data bs (fun _ => false) (init_target HO data, init_ob HO data bs k).
+Proof. exact init_inv. Qed.
+Print Assumptions C07_inv_init.
+
+(* 5 (core): writing / saving any prefix of the honest encoding of any query keeps the invariant and adds the
+   chunks of the written leaves; no save fails *)
+Theorem C07_inv_apply : forall (HO : hops), hash_ok HO ->
+  forall (data : bytes HO) (bs : N), blen HO data <= 2 ^ 63 -> bs <= 10 ->
+  forall D (t : bytes HO) (ob : outboard HO) q ys,
+  Inv HO data bs D (t, ob) -> is_prefix ys (honest HO data bs q) ->
+  exists t' ob', apply_items HO ys t ob = (SOk, t', ob') /\
+                 Inv HO data bs (fun c => D c || delivered HO ys c) (t', ob').
+Proof. exact inv_apply. Qed.
+Print Assumptions C07_inv_apply.
+
+(* 6 (target): once every chunk is delivered the target is the blob *)
+Theorem C07_converges_target : forall (HO : hops) (data : bytes HO) (bs : N) D (st : bytes HO * outboard HO),
+  Inv HO data bs D st -> (forall c, c < nchunks (blen HO data) -> D c = true) -> fst st = data.
+Proof. exact inv_converges_target. Qed.
+Print Assumptions C07_converges_target.
+
+(* 7: in a state of the invariant valid_ranges reports exactly the touched groups all of whose chunks are
+   delivered (more than one group; non-degeneracy: no all-zero chunk in the blob) *)
+Theorem C07_validator_exact : forall (HO : hops), hash_ok HO ->
+  forall (data : bytes HO) (bs : N), blen HO data <= 2 ^ 63 -> bs <= 10 ->
+  forall D (t : bytes HO) (ob : outboard HO) q,
+  Inv HO data bs D (t, ob) -> nondegenerate HO data -> 2 <= sp_blocks (blen HO data) bs -> wf_ranges q = true ->
+  valid_ranges HO ob t q =
+  (flat_map (fun ga => if touchedb q (blen HO data) bs ga && grp_full HO data bs D ga
+                       then [(grp_start bs ga, grp_end (blen HO data) bs ga)] else [])
+            (chunk_range_list 0 (sp_blocks (blen HO data) bs)), Ok tt).
+Proof. exact inv_validator_exact. Qed.
+Print Assumptions C07_validator_exact.
+
+(* 5: a step of a history - decode_ranges (sync or fsm) of ANY stream for a well-formed query, with any sink
+   fault plan - keeps the invariant; the delivered set grows by the chunks of the leaves of the prefix ys of the
+   honest encoding that the step wrote *)
+Theorem C07_inv_step_sync : forall (HO : hops), hash_ok HO ->
+  forall (data : bytes HO) (bs : N), blen HO data <= 2 ^ 63 -> bs <= 10 ->
+  forall D sf (enc : bytes HO) q (t : bytes HO) (ob : outboard HO),
+  wf_ranges q = true -> Inv HO data bs D (t, ob) ->
+  exists ys, is_prefix ys (honest HO data bs q) /\
+    let r := decode_ranges_f HO sf enc q t ob in
+    Inv HO data bs (fun c => D c || delivered HO ys c) (snd (fst (fst r)), snd (fst r)).
+Proof. exact inv_step_sync. Qed.
+Print Assumptions C07_inv_step_sync.
+
+Theorem C07_inv_step_fsm : forall (HO : hops), hash_ok HO ->
+  forall (data : bytes HO) (bs : N), blen HO data <= 2 ^ 63 -> bs <= 10 ->
+  forall D sf (enc : bytes HO) q (t : bytes HO) (ob : outboard HO),
+  wf_ranges q = true -> Inv HO data bs D (t, ob) ->
+  exists ys, is_prefix ys (honest HO data bs q) /\
+    let r := decode_ranges_fsm_f HO sf enc q t ob in
+    Inv HO data bs (fun c => D c || delivered HO ys c) (snd (fst (fst r)), snd (fst r)).
+Proof. exact inv_step_fsm. Qed.
+Print Assumptions C07_inv_step_fsm.
+
+Theorem C07_inv_step : forall (HO : hops), hash_ok HO ->
+  forall (data : bytes HO) (bs : N), blen HO data <= 2 ^ 63 -> bs <= 10 ->
+  forall D (st : bytes HO * outboard HO) (o : op HO),
+  wf_ranges (op_q HO o) = true -> Inv HO data bs D st ->
+  exists ys, is_prefix ys (honest HO data bs (op_q HO o)) /\
+             Inv HO data bs (fun c => D c || delivered HO ys c) (hist_step HO st o).
+Proof. exact inv_step. Qed.
+Print Assumptions C07_inv_step.
+
+(* any history from any state of the invariant (the initial one in particular) ends in a state of the invariant,
+   and the delivered set only grows *)
+Theorem C07_inv_history : forall (HO : hops), hash_ok HO ->
+  forall (data : bytes HO) (bs : N), blen HO data <= 2 ^ 63 -> bs <= 10 ->
+  forall ops : list (op HO), Forall (fun o => wf_ranges (op_q HO o) = true) ops ->
+  forall D st, Inv HO data bs D st ->
+  exists D', Inv HO data bs D' (fold_left (hist_step HO) ops st) /\ forall c, D c = true -> D' c = true.
+Proof. exact inv_history. Qed.
+Print Assumptions C07_inv_history.
+
+(* 6 (outboard), partial: once every chunk is delivered, every pair on the path of every group is the blob's *)
+Theorem C07_converges_pairs_partial : forall (HO : hops) (data : bytes HO) (bs : N),
+  blen HO data <= 2 ^ 63 -> bs <= 10 ->
+  forall D (st : bytes HO * outboard HO), Inv HO data bs D st -> (forall c, c < nchunks (blen HO data) -> D c = true) ->
+  forall ga, ga < sp_blocks (blen HO data) bs -> path_true HO data bs (snd st) ga.
+Proof. exact inv_converges_pairs. Qed.
+Print Assumptions C07_converges_pairs_partial.
+
+(* loads of a pre-sized outboard never fail on tree nodes, and the fsm load agrees: C06 applies to the states
+   of a history, sync and fsm alike *)
+Theorem C07_sized_loads : forall (HO : hops) (size bs : N), size <= 2 ^ 63 -> bs <= 10 ->
+  forall (ob : outboard HO) nd, ob_sized HO ob size bs -> In nd (sp_pre_nodes size bs) ->
+  (exists x, load_sync HO ob nd = Ok x) /\ load_fsm HO ob nd = load_sync HO ob nd.
+Proof. exact sized_loads. Qed.
+Print Assumptions C07_sized_loads.
